@@ -224,9 +224,20 @@ def monitor_edit(ctx: fw.Ctx, fns: list[str], body: dict, after: dict, data: dic
                  expected=without_finalizers(body), sig='fn-other-data')
 
 
-def run_finalizers(ctx: fw.Ctx, env: Env, D: dict[str, list[fw.Case]], n: int) -> None:
+def run_finalizers(ctx: fw.Ctx, env: Env, D: dict[str, list[fw.Case]], n: int, only: list | None = None) -> None:
     r = ctx.rng
     bodies_: list[dict] = []
+    if only is not None:
+        for body, fin, fns in only:
+            kind, got = canon.run_res(lambda: env.finalizers.is_deletion_blocked(env.bodies.Body(body), fin))
+            if kind == 'ok' and is_wellformed(body) and bool(got) != (fin in fins_of(body)):
+                ctx.fail('held-by-finalizer differs from membership in metadata.finalizers', {'body': body}, observed=got, sig='fn-blocked-membership')
+            for fl in ([fns] if fns else [['block'], ['allow']]):
+                patch = env.patches.Patch(fns=[env.fn(k, fin) for k in fl])
+                kind, ops = canon.run_res(lambda: patch.as_json_patch(copy.deepcopy(body)))
+                if kind == 'ok' and is_wellformed(body):
+                    monitor_edit(ctx, fl, body, canon.apply6902(body, ops) if ops else body, {'body': body, 'fns': fl, 'ops': ops})
+        return
     for fv in FIN_VALUES:                      # every seeded value, with and without deletionTimestamp
         for dt in ('ABSENT', '2020-01-01T00:00:00Z'):
             md: dict[str, Any] = {'name': 'obj1', 'resourceVersion': '10'}
@@ -366,13 +377,13 @@ class Server:
         return copy.deepcopy(self.doc)
 
 
-def run_patch_obj(ctx: fw.Ctx, env: Env, D: dict[str, list[fw.Case]], n: int) -> None:
+def run_patch_obj(ctx: fw.Ctx, env: Env, D: dict[str, list[fw.Case]], n: int, only: list | None = None) -> None:
     r = ctx.rng
     real_patch = env.api.patch
     if not asyncio.iscoroutinefunction(real_patch):
         raise RuntimeError('observation point moved: kopf._cogs.clients.api.patch is not a coroutine function')
     try:
-        for i in range(n):
+        for i in range(n if only is None else len(only)):
             body = gen_body(r, wellformed=True)
             body['metadata'].setdefault('name', 'obj1')
             body['metadata'].setdefault('namespace', 'ns1')
@@ -380,6 +391,8 @@ def run_patch_obj(ctx: fw.Ctx, env: Env, D: dict[str, list[fw.Case]], n: int) ->
             merge = r.choice([None, None, {'metadata': {'annotations': {'kopf.zalando.org/h1': 'x'}}}, {'status': {'kopf': {'p': 1}}},
                               {'metadata': {'annotations': {'a': 'b'}}, 'status': {'x': 1}}])
             status_sub = r.random() < 0.4
+            if only is not None:
+                body, fns, merge, status_sub = only[i]['body'], only[i]['fns'], only[i]['merge'], only[i]['status_subresource']
             nreq_merge = 0
             if merge:
                 keys = set(merge)
@@ -390,6 +403,8 @@ def run_patch_obj(ctx: fw.Ctx, env: Env, D: dict[str, list[fw.Case]], n: int) ->
                                 {'do': 'label'}, {'do': 'gone'}])
             if foreign is not None:
                 foreign['before'] = r.randrange(0, nreq_merge + 1)       # before the merge-patch, between, or before the JSON-patch
+            if only is not None:
+                foreign = only[i]['foreign']
             srv = Server(env, body, copy.deepcopy(foreign))
             env.api.patch = srv.patch
             patch = env.patches.Patch(copy.deepcopy(merge) if merge else {}, body=env.bodies.Body(copy.deepcopy(body)),
@@ -572,7 +587,7 @@ def decide_body(r: Any, blocked: str, deleting: bool, labelled: bool) -> dict:
     return {'apiVersion': 'kopf.dev/v1', 'kind': 'KopfExample', 'metadata': md, 'spec': {'a': 1}}
 
 
-def run_decide(ctx: fw.Ctx, env: Env, D: dict[str, list[fw.Case]], n: int) -> None:
+def run_decide(ctx: fw.Ctx, env: Env, D: dict[str, list[fw.Case]], n: int, only: list | None = None) -> None:
     r = ctx.rng
     space = list(itertools.product(range(len(REGISTRIES)), ['no', 'own', 'foreign', 'own+foreign', 'absent'], [False, True],
                                    [False, True], [None, 'ADDED', 'MODIFIED', 'DELETED'], ['none', 'zero', 'some'],
@@ -582,7 +597,7 @@ def run_decide(ctx: fw.Ctx, env: Env, D: dict[str, list[fw.Case]], n: int) -> No
     core = [(g, b, d, l, 'MODIFIED', 'none', 'empty', sd, cd, None, False)
             for g in range(len(REGISTRIES)) for b in ['no', 'own', 'own+foreign'] for d in [False, True] for l in [False, True]
             for sd in [(), (3,)] for cd in [(), (5,)]]
-    cases = core + space[:max(0, n - len(core))]
+    cases = core + space[:max(0, n - len(core))] if only is None else only
     resource = env.resource(False)
     indexers = env.indexing.OperatorIndexers()
     regs: dict[int, Reg] = {}
@@ -700,14 +715,53 @@ def differential(ctx: fw.Ctx) -> None:
     if not ok:
         ctx.correspondence_break('model build', logtxt[-1500:])
         return
+    from kv.props import c06_trace
+    ok, logtxt = fw.build_models([c06_trace.MODEL])
+    if not ok:
+        ctx.correspondence_break('model build', logtxt[-1500:])
+        return
+    ctx.matchers['F601'] = c06_trace.match_f601
     env = Env()
     D: dict[str, list[fw.Case]] = {k: [] for k in ('fz_ongoing', 'fz_blocked', 'fz_block', 'fz_allow', 'fz_edit', 'fz_patch_obj', 'fz_decide')}
     try:
-        run_finalizers(ctx, env, D, ctx.scale(500, 6000))
-        run_patch_obj(ctx, env, D, ctx.scale(400, 5000))
-        run_decide(ctx, env, D, ctx.scale(1500, 20000))
+        run_finalizers(ctx, env, D, ctx.scale(300, 2500))
+        run_patch_obj(ctx, env, D, ctx.scale(300, 2500))
+        run_decide(ctx, env, D, ctx.scale(1200, 8000))
+        traces = c06_trace.run(ctx, env, ctx.scale(250, 2500))
     finally:
         env.close()
     for name, cases in D.items():
         ctx.differential(name, HEADER, cases, shard=150)
+    ctx.differential('fl_trace', c06_trace.HEADER, traces, shard=40)
     ctx.notes.append('function level: ' + RULE_FN)
+
+
+def replay(ctx: fw.Ctx, body: dict) -> bool:
+    """Re-run one function-level failing case (ctx.fail case with layer == 'function'). Returns True if it still fails."""
+    from kv.props import c06_trace
+    case = body.get('case') or {}
+    ctx.matchers['F601'] = c06_trace.match_f601
+    env = Env()
+    D: dict[str, list[fw.Case]] = {k: [] for k in ('fz_ongoing', 'fz_blocked', 'fz_block', 'fz_allow', 'fz_edit', 'fz_patch_obj', 'fz_decide')}
+    try:
+        what = case.get('what')
+        if what == 'trace':
+            w = c06_trace.run_scenario(env, case['scenario'])
+            c06_trace.monitors(ctx, case['scenario'], w)
+        elif what == 'decide':
+            fo = bool(case.get('forever_stopped'))
+            params = (REGISTRIES.index([tuple(x) for x in case['registry']]), case['finalizers'], case['deleting'], case['labelled'], case['event'],
+                      case['consistency_time'], case['carried'], tuple(case['spawning_delays']), tuple(case['changing_delays']), case['unslept'], fo)
+            run_decide(ctx, env, D, 0, only=[params])
+        elif what == 'patch_obj':
+            run_patch_obj(ctx, env, D, 0, only=[case])
+        elif what == 'finalizers':
+            run_finalizers(ctx, env, D, 0, only=[(case['body'], case['finalizer'], case.get('fns'))])
+        else:
+            print('replay file carries no function-level case')
+            return False
+    finally:
+        env.close()
+    for f in ctx.failures:
+        print('  still failing:', f['sig'], '-', f['what'])
+    return bool(ctx.failures) or bool(ctx.known_hits)
